@@ -306,7 +306,7 @@ pub const C08: ConcCheck = ConcCheck { asked: "C08", sub: "rmw", mix: Mix::Compu
 
 fn c08_shard(ctx: &Ctx, out: &mut ShardOut) {
     let pool = Pool::new();
-    let n = ctx.share(ctx.by_tier(320, 10_000)) as u32;
+    let n = ctx.share(ctx.by_tier(1500, 20_000)) as u32;
     C08.run(ctx, &pool, 8, n, &budget_for(ctx.tier, ctx.shard_seed(78)), out);
 }
 fn c08_replay(_sub: &str, case: &Value) -> Result<(), CaseFail> {
@@ -343,7 +343,7 @@ pub const C13: ConcCheck = ConcCheck { asked: "C13", sub: "retain", mix: Mix::Re
 
 fn c13_shard(ctx: &Ctx, out: &mut ShardOut) {
     let pool = Pool::new();
-    let n = ctx.share(ctx.by_tier(320, 10_000)) as u32;
+    let n = ctx.share(ctx.by_tier(1000, 15_000)) as u32;
     C13.run(ctx, &pool, 13, n, &budget_for(ctx.tier, ctx.shard_seed(79)), out);
     // sequential agreement with the standard retain is part of C02's operation set; here a small
     // dedicated slice so that C13 does not depend on another check
@@ -388,9 +388,9 @@ pub const C11C: ConcCheck = ConcCheck { sub: "term-resize", mix: Mix::Resize, ..
 fn c11_shard(ctx: &Ctx, out: &mut ShardOut) {
     let pool = Pool::new();
     let b = budget_for(ctx.tier, ctx.shard_seed(80));
-    C11.run(ctx, &pool, 11, ctx.share(ctx.by_tier(160, 6_000)) as u32, &b, out);
-    C11B.run(ctx, &pool, 12, ctx.share(ctx.by_tier(160, 6_000)) as u32, &b, out);
-    C11C.run(ctx, &pool, 15, ctx.share(ctx.by_tier(96, 4_000)) as u32, &b, out);
+    C11.run(ctx, &pool, 11, ctx.share(ctx.by_tier(500, 6_000)) as u32, &b, out);
+    C11B.run(ctx, &pool, 12, ctx.share(ctx.by_tier(500, 6_000)) as u32, &b, out);
+    C11C.run(ctx, &pool, 15, ctx.share(ctx.by_tier(300, 4_000)) as u32, &b, out);
     let lb = Budget { single: 0, double: 0, coarse2: 0, tapes: ctx.by_tier(24, 200) as usize, tape_seed: ctx.shard_seed(93) };
     C11L.run(ctx, &pool, 19, ctx.share(ctx.by_tier(96, 3_000)) as u32, &lb, out);
 }
